@@ -295,8 +295,28 @@ func (Scenario) Run(c choice.Chooser, opt sim.Options) (res sim.Result) {
 		res.Sig = fmt.Sprintf("%016x", choice.Hash64(strings.Join(hist, ";")))
 		return res
 	}
+	pendingPoison := false
 	defer func() {
 		if r := recover(); r != nil {
+			// A panic out of an update, re-wiring or observer call. If some
+			// source holds (or is just receiving) a value that makes
+			// processors panic, an implementation that evaluates eagerly
+			// lets that panic out here just as the lazy one lets it out of
+			// the read: how a panicking processor surfaces is not judged.
+			// The history ends (the model cannot follow a half-applied
+			// operation). With no such value around it is a crash.
+			poisoned := pendingPoison
+			for _, v := range w.srcVal {
+				if strings.Contains(v, "?") {
+					poisoned = true
+				}
+			}
+			if poisoned {
+				res.Count("fault:processor-panic-left-a-mutation-call", 1)
+				res.Sig = fmt.Sprintf("%016x", choice.Hash64(strings.Join(hist, ";")))
+				res.LogHash = res.Sig
+				return
+			}
 			res = violate("panic", fmt.Sprintf("graph operation panicked: %v", r))
 		}
 	}()
@@ -475,27 +495,6 @@ func (Scenario) Run(c choice.Chooser, opt sim.Options) (res sim.Result) {
 			if !panicked && !mustPanic && got != want {
 				return violate("stale-read", fmt.Sprintf("%s returned %q, evaluating the current graph from scratch gives %q", what, got, want))
 			}
-			seen := map[int]bool{}
-			for _, x := range w.log {
-				if seen[x] {
-					return violate("spurious-recompute", fmt.Sprintf("%s executed node n%d twice", what, x))
-				}
-				seen[x] = true
-				if !w.nodes[x].dirty {
-					return violate("spurious-recompute", fmt.Sprintf("%s re-executed node n%d although nothing it depends on was updated or re-wired since it last executed", what, x))
-				}
-			}
-			for x := range seen {
-				if w.panics(x) {
-					// started and aborted by the panic, or recovered by the
-					// implementation: either way not judged; the node stays
-					// due and its version is taken as found
-					w.nodes[x].execs = w.real[x].Version()
-					continue
-				}
-				w.nodes[x].dirty = false
-				w.nodes[x].execs++
-			}
 			res.Count("probe:executions", len(w.log))
 			if len(w.log) == 0 {
 				res.Count("probe:read-served-from-cache", 1)
@@ -524,6 +523,7 @@ func (Scenario) Run(c choice.Chooser, opt sim.Options) (res sim.Result) {
 				serial++
 			}
 			what = fmt.Sprintf("update src%d:=%s", s, v)
+			pendingPoison = strings.Contains(v, "?")
 			if w.srcKind[s] == 0 {
 				if _, err := w.params[s].ApplyMessage([]byte(strconv.Quote(v))); err != nil {
 					return violate("panic", "ApplyMessage failed: "+err.Error())
@@ -532,6 +532,7 @@ func (Scenario) Run(c choice.Chooser, opt sim.Options) (res sim.Result) {
 				w.values[s].Set(v)
 			}
 			w.srcVal[s] = v
+			pendingPoison = false
 			w.markDependents(-(s + 1))
 			changedSinceRead = true
 			hist = append(hist, what)
@@ -633,11 +634,43 @@ func (Scenario) Run(c choice.Chooser, opt sim.Options) (res sim.Result) {
 			hist = append(hist, fmt.Sprintf("%s -> %v", what, st))
 			res.Count("op:state", 1)
 			if len(w.log) > 0 {
-				return violate("observer-executed-node", fmt.Sprintf("%s executed nodes %v", what, w.log))
+				// not forbidden as such: whether the executions were due is
+				// judged below like anywhere else
+				res.Count("probe:observer-call-executed-nodes", 1)
 			}
 			if st == nodes.Processed && w.nodes[i].dirty && w.real[i].Version() == 0 {
 				return violate("stale-read", fmt.Sprintf("%s reports Processed for a node that never executed", what))
 			}
+		}
+		// Executions are judged wherever they happen. The property says when a
+		// node MAY execute (something it depends on, or its wiring, changed
+		// since it last executed), not which call triggers it: an
+		// implementation that recomputes eagerly inside an update or a
+		// re-wiring is as legitimate as the lazy one of the pinned tree. The
+		// model has already applied this operation's changes (dirty marks).
+		seen := map[int]bool{}
+		for _, x := range w.log {
+			if seen[x] {
+				return violate("spurious-recompute", fmt.Sprintf("%s executed node n%d twice", what, x))
+			}
+			seen[x] = true
+			if !w.nodes[x].dirty {
+				return violate("spurious-recompute", fmt.Sprintf("%s re-executed node n%d although nothing it depends on was updated or re-wired since it last executed", what, x))
+			}
+		}
+		for x := range seen {
+			if w.panics(x) {
+				// started and aborted by the panic, or recovered by the
+				// implementation: either way not judged; the node stays
+				// due and its version is taken as found
+				w.nodes[x].execs = w.real[x].Version()
+				continue
+			}
+			w.nodes[x].dirty = false
+			w.nodes[x].execs++
+		}
+		if kind != 0 && len(w.log) > 0 {
+			res.Count("probe:executions-outside-reads", len(w.log))
 		}
 		if r := checkVersions(what); r != nil {
 			return *r
